@@ -38,7 +38,7 @@ SPEC = dict(
         'in is zeroed, the other line and its coefficients are kept; the header documents no more than "set numerator/denominator"',
         'order 0 is exercised with valid zero-size blocks (never NULL: a_zero/a_move are declared nonnull)',
         'low-pass range clause: DESIGN.md planned a 2-ulp slack; that is unsound (fl(1-alpha)+alpha != 1 and per-step rounding is only '
-        'contracted by 1-alpha; up to 148 ulp observed on the unchanged tree). The clause uses 2 ulp + 2*eps*M*min(steps, 1/alpha), '
+        'contracted by 1-alpha; up to 256 ulp observed on the unchanged tree; worst excess/slack 0.22 over seeds 1..5). The clause uses 2 ulp + 2*eps*M*min(steps, 1/alpha), '
         'the geometric sum of the per-step rounding bound',
         'high-pass decay is judged after ceil(40/(1-alpha)) steps (its pole is alpha), low-pass settling after ceil(40/alpha) steps',
         'a_lpf_gen/a_hpf_gen: strict interior and the header formula are asserted for 1e-12 <= fc*ts <= 1e12 with fc, ts each within '
